@@ -1,9 +1,9 @@
 SPECIFICATION Spec
 CONSTANTS
   NameSyms = {1, 2, 3, 4, 5, 6}
-  MaxName1 = 2
+  MaxName1 = 1
   MaxName2 = 1
   Unconditional = FALSE
-  M_ZeroOffsetsWritten = TRUE
-INVARIANTS RoundTrip R_RoundTrip ModelD8 Export
+  M_ZeroOffsetsWritten = FALSE
+INVARIANTS R_RoundTrip
 CHECK_DEADLOCK FALSE
